@@ -45,10 +45,8 @@ Spec == Init /\ [][Next]_vars
 B2IsDifference == pc = "loop" => b2 = a * a - n /\ a = CeilSqrt(n) + i
 Sound == result # None => result[1] * result[2] = n
 \* the definitional answer: the smallest a >= ceil(sqrt n) with a^2 - n a square, if it is among the first MaxSteps candidates
-\* (linear scan upwards; it ends at (m + 1) / 2 at the latest, where x^2 - m = ((m - 1) / 2)^2)
-FirstA(m) == LET RECURSIVE Scan(_)
-                 Scan(x) == IF IsSquare(x * x - m) THEN x ELSE Scan(x + 1)
-             IN Scan(CeilSqrt(m))
+\* (TLC enumerates the candidate set natively: faster than a recursive scan for the n <= 3000 that are replayed)
+FirstA(m) == CHOOSE x \in CeilSqrt(m)..((m + 1) \div 2) : IsSquare(x * x - m) /\ \A y \in CeilSqrt(m)..(x - 1) : ~IsSquare(y * y - m)
 Expected(m, ms) == IF m % 2 = 0 THEN <<2, m \div 2>>
                    ELSE IF IsSquare(m) THEN <<ISqrt(m), ISqrt(m)>>
                    ELSE IF FirstA(m) - CeilSqrt(m) < ms THEN <<FirstA(m) + ISqrt(FirstA(m) * FirstA(m) - m), FirstA(m) - ISqrt(FirstA(m) * FirstA(m) - m)>>
